@@ -21,6 +21,15 @@ A8 = 'A8 toolchains: Verus compiles the extracted text with Rust 1.98.1, Kani wi
 EVAL_FUNCS = 'eval_expr, eval_or_expr, eval_and_expr, eval_eq_expr, eval_relational_expr, eval_add_expr, eval_mul_expr, eval_unary_expr, eval_union_expr, eval_path_expr, eval_filter_expr, eval_primary_expr, eval_filtered_loc_expr, eval_loc_expr, eval_step_expr, eval_axis_node_test, eval_node_test, eval_predicate, eval_func_expr'
 
 PROPS = {
+    'C05': dict(
+        standin_ops=['xpath.query.node_test'],
+        verus_units=['eval_ctx'],
+        level='proof',
+        trusted_base=TRUSTED_VERUS,
+        assumptions=[A2, A9, A10 + '; node_type() / node_name() of a node are uninterpreted functions of the node (namespace nodes answer Attribute in this library)', A11, A8],
+        not_decided='everything else C05 asks: which nodes an axis yields, name tests against expanded names (live graph), predicates (by running the real code: /r/*[1.5] selects the first child because a numeric predicate is truncated, not compared -- NOT decided by any check: the value of the predicate expression is internal to eval_predicate), operators on node-sets, string-values; `self::*` on an attribute node (principal node type depends on the axis, which eval_node_test is not given)',
+        explanation='node tests of the evaluator: eval_node_test answers `*` with "the node is an element or an attribute (or namespace) node", text() with text / CDATA / entity-reference nodes, comment() and processing-instruction() by node type, node() always, and processing-instruction(\'t\') by node type and target, for every node',
+    ),
     'C12': dict(
         standin_ops=['dom.tree_atomic'],
         verus_units=['c13_tree'],
@@ -161,12 +170,16 @@ PROPS = {
 NOT_APPLICABLE = {
     'C01': 'acceptance and infoset construction are ~80 nom-combinator productions plus Rc<RefCell> item construction; Verus cannot import nom or express its impl-FnMut combinators, Kani did not finish a 2-byte symbolic input in 15 min nor a concrete 9-byte document in 10 min; no contract within reach states "every well-formed document"',
     'C03': 'totality of parse/print is a property of the recursive nom grammar, unimplemented! arms reachable only with a live document, recursion depth and running time; none is expressible as a contract on a function either verifier can load',
-    'C05': 'the evaluator recurses over live dom::XmlNode graphs (Rc<RefCell>, order keys through HashMap/Weak); building a three-node document under Kani exceeds 8 min/3.5 GB and Verus has no model of the graph; the scalar leaves are decided under C09',
     'C08': 'spelling equivalence and precedence are properties of the nom expression grammar (relations between strings), outside both verifiers',
     'C17': 'the CLIs compose file I/O, both nom grammars, the evaluator, DOM mutation and the printer; nothing in them is a function a contract can isolate',
 }
 
 MANIFEST_TEXT = {
+    'C05': dict(
+        level_text='Proof (Verus, every node and node test) for eval_node_test only: the name test * selects element / attribute / namespace nodes and never text, comment or processing-instruction nodes; the node-type tests and processing-instruction(literal) select by node type (and target). Axes, name matching, predicates, operators over node-sets: not decided.',
+        level_note='Trusted as C19; node type and node name are uninterpreted functions of the opaque node. A thin slice of C05.',
+        technique='contract-based deductive verification (Verus postconditions on the extracted real function over uninterpreted node attributes)',
+        design_ref='DESIGN.md §9'),
     'C12': dict(
         level_text='Proof (Verus, all child lists / ids / item kinds) of the LOCAL steps only: insert_by_id of elements and attributes and delete_by_id of elements keep "listed under a parent" and "parent link points to that parent" in agreement, list an accepted child exactly once, and change nothing when they refuse. The invariant over whole edit histories and the sibling/first/last views are not decided.',
         level_note='Trusted: Verus+Z3, extractor, the ghost world model of parent links with remove_from_parent as an assumed callee. Not decided: everything that needs the live graph as a whole.',
